@@ -20,7 +20,7 @@ func siteR(kind, name, typ, pkg string) *jg.Site {
 }
 
 var c02ExprNames = []string{"implicit", "this-call", "field-imported", "field-project", "param", "local", "static", "chained",
-	"nested-arg", "new", "new-with-arg-call", "lambda", "this-field", "param-project", "new-generic", "new-qualified", "new-then-call", "new-in-lambda", "new-as-argument", "local-of-declared-type-initialised-with-other-new", "field-of-project-interface-via-on-demand-import", "final-local", "parameter-used-after-being-passed-next-to-a-creation", "parameter-used-after-being-passed-to-a-constructor-next-to-a-creation", "typed-lambda-parameter-named-like-a-field"}
+	"nested-arg", "new", "new-with-arg-call", "lambda", "this-field", "param-project", "new-generic", "new-qualified", "new-then-call", "new-in-lambda", "new-as-argument", "local-of-declared-type-initialised-with-other-new", "field-of-project-interface-via-on-demand-import", "final-local", "parameter-used-after-being-passed-next-to-a-creation", "parameter-used-after-being-passed-to-a-constructor-next-to-a-creation", "typed-lambda-parameter-named-like-a-field", "local-of-an-imported-type-with-a-dollar-in-its-name"}
 
 // c02Expr returns (prefix statements needed before, expression fragments).
 func c02Expr(kind string, uniq string) (pre []jg.Stmt, e []jg.Frag) {
@@ -30,6 +30,10 @@ func c02Expr(kind string, uniq string) (pre []jg.Stmt, e []jg.Frag) {
 	case "field-of-project-interface-via-on-demand-import":
 		// the declared type is a project interface of another package, visible only through `import app.api.*;`
 		e = []jg.Frag{jg.T("notifier."), jg.S(siteR("call", "send", "Notifier", "app.api")), jg.T("()")}
+	case "local-of-an-imported-type-with-a-dollar-in-its-name":
+		v := "ds" + uniq
+		pre = []jg.Stmt{jg.St(jg.T("Data$Source " + v + " = null;"))}
+		e = []jg.Frag{jg.T(v + "."), jg.S(siteR("call", "open", "Data$Source", "lib")), jg.T("()")}
 	case "final-local":
 		v := "fl" + uniq
 		pre = []jg.Stmt{jg.St(jg.T("final Tool " + v + " = null;"))}
@@ -148,7 +152,7 @@ type c02Project struct {
 func c02Gen(c *engine.C) engine.Case {
 	layout, _ := pickLayout(c)
 	svc := &jg.Class{Pkg: "app", Name: "Svc", Kind: "class", Mods: []string{"public"},
-		Imports: []string{"lib.Repo", "other.Tool", "java.util.List", "app.api.*"}}
+		Imports: []string{"lib.Repo", "other.Tool", "java.util.List", "app.api.*", "lib.Data$Source"}}
 	switch engine.Pick(c, "import-suffix-collision", "none", "type-name-ends-with-imported-type-name", "type-name-ends-with-own-method-name") {
 	case "type-name-ends-with-imported-type-name":
 		svc.Imports = append([]string{"lib2.SuperRepo"}, svc.Imports...)
